@@ -223,6 +223,7 @@ func (m *BaseUndoLogManager) FlushUndoLog(tranCtx *types.TransactionContext, con
 		BranchID: tranCtx.BranchID,
 		Logs:     sqlUndoLogs,
 	}
+	verifObserveFlush(&branchUndoLog)
 
 	parseContext := make(map[string]string, 0)
 	parseContext[serializerKey] = undo.UndoConfig.LogSerialization
